@@ -71,7 +71,9 @@ CLAIMED = {
         "Counter bounds (CounterProofs.v, accounting argument pairing every decrement of the three loops with a counted pod): every status write has "
         "0<=ready,current,updated<=replicas, for all pod lists (several revisions in flight, terminating/failed/condemned/duplicate pods) provided cached pods "
         "have a phase (API server default). Census: a reconcile whose plan holds no action writes exactly total/ready/current/updated of the claimed pods. "
-        "The same clauses are monitored on every status write of the real controller and compared through the projected correspondence (status payloads).",
+        "The same clauses are monitored on every status write of the real controller and compared through the projected correspondence (status payloads). "
+        "Event-driven family (monitor only): the controller's own informer handlers and work queue drive the reconciles while the set watch lags; at quiescence "
+        "the stored counters must be the census.",
    note="As C03. The bounds theorem carries one environment hypothesis (stored pods have status.phase set), stated in the theorem.",
    technique="Coq proof (status field invariants through the three loops; API precondition) + differential correspondence on status payloads + monitor",
    ref="6 C12"),
@@ -200,7 +202,9 @@ CLAIMED = {
         "longer than the limit, and (as a cross-check of the hypotheses on observed worlds) that a fair history ends in a quietb world, are evaluated inside coqc (round_check "
         "on worlds observed at round boundaries of histories and on synthetic settled worlds; quietb on the final world of every history), not proved. Both are "
         "decided on the implementation on every generated history (chaotic prefix of reconciles, kubelet events, partial cache refreshes, faults, edits that stop; "
-        "fair suffix): converged, status = census, last two reconciles write nothing. The environment model (Env.v) is compared with the real world after every op inside coqc.",
+        "fair suffix): converged, status = census, last two reconciles write nothing. The environment model (Env.v) is compared with the real world after every op inside coqc. "
+        "Outage family (monitor only): event-driven execution through the real work queue, 14-30 consecutive failing reconciles, then a fair suffix driven by the "
+        "controller's own retries and informer events: the set must still converge.",
    note="PARTIAL as stated (comment (4) in C02.v). Premises: valid defaulted spec (RollingUpdate carries a partition), canonical names, no unclaimable pod "
         "holding a desired name, not paused/deleting, no terminal-phase pod outside the desired set.",
    technique="Coq proof (fixed points, progress, termination measure of the pod phase, lifting of the round to the full reconcile + environment model, quiet worlds) "
